@@ -16,7 +16,11 @@ from xandikos.icalendar import ICalendarFile  # noqa: E402
 
 METHODS = ["GET", "PROPFIND", "PUT", "POST", "DELETE", "MKCOL", "MKCALENDAR", "PROPPATCH", "MULTIGET", "SLUG", "UIDNAME"]
 
-ALLOW_PREFIXES = [sys.prefix, sys.base_prefix, "/repo", "/verif", "/usr", "/etc", "/proc", "/dev",
+import xandikos as _xandikos_pkg
+ALLOW_PREFIXES = [sys.prefix, sys.base_prefix, "/repo", "/verif",
+                  os.path.dirname(os.path.dirname(os.path.abspath(_xandikos_pkg.__file__))),     # the code under test
+                  os.path.dirname(os.path.dirname(os.path.abspath(__file__))),                   # this harness
+                  "/usr", "/etc", "/proc", "/dev",
                   "/venv", "/root/.pyenv", "/lib", "/sys", "/opt", "/tmp",
                   # git configuration read by dulwich (library configuration, not user data)
                   os.path.expanduser("~/.gitconfig"), os.path.expanduser("~/.config/git")]
